@@ -104,6 +104,12 @@ func (in *vfC18Inst) Enabled() []string {
 	}
 	if len(in.handlers) < 2 {
 		evs = append(evs, "handler")
+		// handler creation with a remote (un)subscription processed by the event loop right behind it
+		for _, name := range []string{"a", "b"} {
+			if in.conn[name] {
+				evs = append(evs, "hrace:sub:"+name, "hrace:unsub:"+name)
+			}
+		}
 	}
 	for _, h := range in.handlers {
 		if h.cancelled {
@@ -213,6 +219,37 @@ func (in *vfC18Inst) Apply(evFull string, judge bool) string {
 		if err != nil {
 			panic(err)
 		}
+		eh := &vfEvtHandler{h: h, name: fmt.Sprintf("h%d", len(in.handlers)+1), fold: map[string]bool{}, last: map[string]string{}}
+		in.n.label(unsafe.Pointer(h), eh.name)
+		in.handlers = append(in.handlers, eh)
+	case "hrace":
+		// The event loop is parked inside a thunk; EventHandler() queues its registration thunk, and behind it
+		// a second thunk does what the loop does on receiving the peer's RPC (handleIncomingRPC).  Blocked
+		// senders on one channel are served first-come-first-served and the loop does not yield between two
+		// ready receives (workers run with GOMAXPROCS=1), so the RPC is handled before the EventHandler caller
+		// runs again: whatever EventHandler does after its thunk is too late for this event.
+		kind, who, _ := strings.Cut(arg, ":")
+		gate := make(chan struct{})
+		ps := in.n.ps
+		go func() { ps.eval <- func() { <-gate } }()
+		synctest.Wait()
+		var h *TopicEventHandler
+		hdone := make(chan struct{})
+		go func() {
+			defer close(hdone)
+			var err error
+			if h, err = in.topic.EventHandler(); err != nil {
+				panic(err)
+			}
+		}()
+		synctest.Wait()
+		rpc := vfSubRPC("t", kind == "sub")
+		rpc.from = in.fakes[who].ident.id
+		go func() { ps.eval <- func() { ps.handleIncomingRPC(rpc) } }()
+		synctest.Wait()
+		close(gate)
+		synctest.Wait()
+		<-hdone
 		eh := &vfEvtHandler{h: h, name: fmt.Sprintf("h%d", len(in.handlers)+1), fold: map[string]bool{}, last: map[string]string{}}
 		in.n.label(unsafe.Pointer(h), eh.name)
 		in.handlers = append(in.handlers, eh)
